@@ -458,7 +458,7 @@ class Impl:
         mrecs = [{'dur': m[0], 'react': m[1], 'daemon': bool(m[2]), 'cancel_seen': None,
                   'finished': None} for m in members]
         rec = {'kind': 'group', 'node': p, 'parents': stack, 'entered': int(loop.time()),
-               'members': mrecs, 'policy': policy}
+               'members': mrecs, 'policy': policy, 'owner': asyncio.current_task()}
         tasks = []
 
         async def member(mrec, dur, react, had, sub):
@@ -561,8 +561,17 @@ class Impl:
                     obs['armed_after'] = len(timers.live(me, mark))
                 else:
                     obs['armed_after'] = obs['armed']
+                owner_rec = {}
                 for e in evs:
                     if e['kind'] == 'group':
+                        for mrec, m in zip(e['members'], e['tasks']):
+                            owner_rec[m] = mrec
+                for e in evs:
+                    if e['kind'] == 'group':
+                        # whose task ran this group: the program's own ('victim') or a member's
+                        owner = e.pop('owner')
+                        e['owner_member'] = owner_rec.get(owner)
+                        e['owned_by_program'] = owner is me
                         for mrec, m in zip(e['members'], e.pop('tasks')):
                             # when somebody first called cancel() on the member (task class of
                             # the harness's own loop)
